@@ -329,7 +329,7 @@ PROPS["C17"] = {
     "pkg": "c17",
     "variants": [
         {"name": "bubble", "synctest": True, "kinds": ["c17.once-bubble", "c17.sema-bubble", "c17.sema-burst", "c17.hot-key", "c17.typed", "c17.panic"]},
-        {"name": "stress", "race": True, "kinds": ["c17.once-stress", "c17.sema-stress"], "shards": {"thorough": 8}},
+        {"name": "stress", "race": True, "kinds": ["c17.once-stress", "c17.sema-stress", "c17.release-storm"], "shards": {"thorough": 8}},
     ],
     "technique": "generated concurrent programs: (1) harness-gated scripts inside a testing/synctest bubble with exact quiescence and virtual time, (2) barrier-start real-thread stress under the race detector; call-count, result-identity, progress and holder-count invariants",
     "level_text": ("Exploration of schedules with two drivers. Bubble driver: rapid draws keys, goroutines and a script interleaving {start goroutine, open the "
@@ -473,6 +473,18 @@ _ADD9 = {
     "C18": " Registered services have different dynamic types: pointers, func adapters and structs with slice fields (both unhashable), comparable struct values.",
     "C19": " One attribute kind is a slog.LogValuer following an external gauge that the sequential check moves before every record (evaluation must happen when a record is printed).",
 }
+# Round 10.
+_ADD10 = {
+    "C01": " A sweep calls the fold-aware functions with every rune that has a non-trivial simple-fold orbit as first rune of needle and haystack.",
+    "C08": " For the DefaultStorage destination the same bytes are also cut at up to three arbitrary positions into separate readers for NewDefaultStorage(readers...): lines do not continue across readers.",
+    "C10": " A drain kind fills and deletes 1..300 private keys in rounds (the cache passes through large and empty again and again) while 1-3 single-writer goroutines check read-your-own-write on their keys; a storm of 12000 parallel Gets must move Hit/Miss by exactly that many.",
+    "C15": " Read buffers may be sub-slices with sentinel-filled spare capacity: n <= len(p), nothing written beyond len(p), the underlying reader never gets a longer buffer.",
+    "C17": " A release-storm kind has held+redundant Release calls start at the same instant (spinning barrier): all return, then exactly n Acquires succeed.",
+    "C20": " Handlers may commit the response with a zero-length Write first; the sink records the headers at commit time.",
+}
+for _pid, _lt in _ADD10.items():
+    PROPS[_pid]["level_text"] += _lt
+
 for _pid, _lt in _ADD9.items():
     PROPS[_pid]["level_text"] += _lt
 _COLD = (" Every concurrent kind (<kind>.conc) is preceded by cold starts: fresh child processes whose first use of the library is one concurrent batch "
